@@ -122,10 +122,13 @@ pub const PROBE_TAILS: [&str; 7] = [
 ];
 /// Deep nests around the widths of the counters a driver may keep (u8, u15, u16): the worker
 /// threads have 256 MiB stacks, so the recursive push driver gets to 70 000 levels.
-pub const DEEP_DEPTHS: [usize; 9] = [255, 256, 257, 32_767, 32_768, 65_535, 65_536, 65_537, 70_000];
+pub const DEEP_DEPTHS: [usize; 14] = [255, 256, 257, 32_767, 32_768, 65_535, 65_536, 65_537, 70_000, 131_071, 131_072, 131_073, 140_000, 150_000];
+/// What follows the deep document: nothing, or further documents (state kept or released at the
+/// document boundary after a deep document).
+pub const DEEP_TAILS: [&str; 2] = ["a\n", "a\n--- b\n--- [c, {d: e}]\n...\n"];
 pub const DEEP_OPENERS: [&str; 4] = ["- ", "? ", "- ? ", "- - k: "];
 pub fn deep_count() -> u64 {
-    (DEEP_DEPTHS.len() * DEEP_OPENERS.len() * 3) as u64
+    (DEEP_DEPTHS.len() * DEEP_OPENERS.len() * DEEP_TAILS.len() * 3) as u64
 }
 /// Very large single documents (counts past 2^20): one in the quick tier, all in the thorough one.
 pub static HUGE_ON: std::sync::atomic::AtomicBool = std::sync::atomic::AtomicBool::new(false);
@@ -244,12 +247,13 @@ fn probe_case(k: u64) -> Case {
         let j = k / 3;
         let opener = DEEP_OPENERS[(j % DEEP_OPENERS.len() as u64) as usize];
         let depth = DEEP_DEPTHS[((j / DEEP_OPENERS.len() as u64) % DEEP_DEPTHS.len() as u64) as usize];
+        let tail = DEEP_TAILS[((j / (DEEP_OPENERS.len() * DEEP_DEPTHS.len()) as u64) % DEEP_TAILS.len() as u64) as usize];
         let per = opener.matches(['-', '?', ':']).count().max(1);
         let mut text = String::with_capacity(depth * 3);
         for _ in 0..depth / per {
             text.push_str(opener);
         }
-        text.push_str("a\n");
+        text.push_str(tail);
         return Case {
             prop: "C17".into(),
             gen: "L-deep".into(),
@@ -291,7 +295,7 @@ pub fn exhaustive_plan(ctx: &Ctx, thorough: bool) -> (u64, String) {
     (
         total + probe_count() + mega_count(),
         format!(
-            "every peek/next history (0..2 peeks before each next, 7 after-StreamEnd tails) of {} streams with up to {} events; plus {} large probe streams ({:?} at {:?} bytes x 7 back-referring tail documents x 3 clients, and block nests of 255..70 000 levels x 4 openers x 3 clients; an anchor and its alias 1..65 536 documents apart x 3 clients; every one of the regular input families of the instruction clock at 700 kB (thorough: and 2.8 MB) x 3 clients)",
+            "every peek/next history (0..2 peeks before each next, 7 after-StreamEnd tails) of {} streams with up to {} events; plus {} large probe streams ({:?} at {:?} bytes x 7 back-referring tail documents x 3 clients, and block nests of 255..150 000 levels x 4 openers x 3 clients, alone and followed by further documents; an anchor and its alias 1..65 536 documents apart x 3 clients; every one of the regular input families of the instruction clock at 700 kB (thorough: and 2.8 MB) x 3 clients)",
             t.len(),
             max_m,
             probe_count(),
@@ -414,6 +418,9 @@ struct Pull<'c> {
 /// Returns `None` if the history conformed to the model, else `(class, detail)`.
 impl ParserVisitor for Pull<'_> {
     type Out = Option<(String, String)>;
+    fn construct_failed(self, end: End) -> Self::Out {
+        Some((end.class(), format!("while the parser was being constructed: {}", end.describe())))
+    }
     fn visit<'a, I: Input>(self, mut p: Parser<'a, I>) -> Self::Out {
         let t = self.t;
         let case = self.case;
@@ -604,6 +611,9 @@ struct PushMulti<'c> {
 
 impl ParserVisitor for PushMulti<'_> {
     type Out = Option<(String, String)>;
+    fn construct_failed(self, end: End) -> Self::Out {
+        Some((end.class(), format!("while the parser was being constructed: {}", end.describe())))
+    }
     fn visit<'a, I: Input>(self, mut p: Parser<'a, I>) -> Self::Out {
         let mut recv = Collect { evs: Vec::new(), limit: self.limit };
         let g = guarded(|| p.load(&mut recv, true));
@@ -622,6 +632,9 @@ struct PushSingle<'c> {
 
 impl ParserVisitor for PushSingle<'_> {
     type Out = Option<(String, String)>;
+    fn construct_failed(self, end: End) -> Self::Out {
+        Some((end.class(), format!("while the parser was being constructed: {}", end.describe())))
+    }
     fn visit<'a, I: Input>(self, mut p: Parser<'a, I>) -> Self::Out {
         let mut recv = Collect { evs: Vec::new(), limit: self.limit };
         let limit = self.limit;
